@@ -398,6 +398,34 @@ pub fn run(tier: &str) -> i32 {
                 }
             }
         }
+        // a directory that is the last thing in the stream while its declared length runs past the end of the
+        // stream (lengths rounded up by a writer, no padding at the end of the file)
+        for (code, c) in [(1u8, Compression::None), (2, Compression::GZip), (3, Compression::Brotli), (4, Compression::ZStd)] {
+            for extra in [1u64, 16, 1 << 20] {
+                let es = &lists[0];
+                let root = codec::compress(code, &dir::encode(es));
+                let mut h = SHeader { tile_type: 2, tile_compression: 1, internal_compression: code, ..SHeader::default() };
+                h.root_offset = 127;
+                h.root_length = root.len() as u64 + extra;
+                h.meta_offset = 127;
+                h.meta_length = 0;
+                h.leaf_offset = 127;
+                h.leaf_length = 0;
+                h.data_offset = 127;
+                h.data_length = 0;
+                let mut arch = h.encode().to_vec();
+                arch.extend_from_slice(&root);
+                nv += 1;
+                if let Some((k, d)) = readers_agree(&arch, (Bound::Unbounded, Bound::Unbounded), &[]) {
+                    rep.violation(format!("{k}/root-length-past-eof"), format!("[{} root directory is the last section, declared {extra} bytes longer than the stream] {d}", cname(c)), json!({"kind":"framing-archive","variant":"root-length-past-eof","comp":cname(c),"extra":extra}));
+                }
+                let rs = call(|| read_directories(&mut std::io::Cursor::new(&arch), c, (127, h.root_length), 127, ..).map(|m| m.len()));
+                let ra = call(|| block_on(read_directories_async(&mut futures::io::Cursor::new(&arch), c, (127, h.root_length), 127, ..)).map(|m| m.len()));
+                if rs.kind() != ra.kind() || (rs.is_ok() && rs != ra) {
+                    rep.violation("read-directories-outcomes-differ/root-length-past-eof".to_string(), format!("[{}] sync {} vs async {}", cname(c), rs.describe(), ra.describe()), json!({"kind":"framing-archive","variant":"root-length-past-eof","comp":cname(c),"extra":extra}));
+                }
+            }
+        }
         rep.eval(nv * 2);
         rep.nontrivial(nv);
         rep.count("codec_framing_variants", nv);
